@@ -81,6 +81,7 @@ def gen_doc(rng, nested=True):
         meta.append(("Title", gen_title(rng)))
         if rng.random() < 0.5: meta.append(("Author", "A. " + rng.choice(["O'Neil", "B <b@c>", "Q \"R\""])))
         if rng.random() < 0.3: meta.append(("Custom Key", rng.choice(["v&w", "1 < 2", "plain"])))
+        if rng.random() < 0.3: meta.append(("Base Header Level", str(rng.randint(1, 3))))
     n = rng.randint(0, 7)
     levels, prev = [], 0
     for _ in range(n):
